@@ -43,6 +43,8 @@ def err(name, cls=None):
 def concrete_binop(eng, t, a, b, strict=False):
     if isinstance(a, SBytes) and isinstance(b, SBytes) and t is ast.Add:
         return SBytes(a.items + b.items, a.mutable)
+    if isinstance(a, SBytes) and isinstance(b, Native) and hasattr(b, "items") and t is ast.Add:
+        return SBytes(a.items + list(b.items), a.mutable)  # opaque chunk objects of a stub are kept as items
     if isinstance(a, Rope) and isinstance(b, Rope) and t is ast.Add:
         return Rope(a.segs + b.segs)
     if isinstance(a, SBytes) and isinstance(b, int) and t is ast.Mult:
@@ -848,6 +850,11 @@ def ctx_exit(eng, m):
 
 # ------------------------------------------------------------------------------------ native calls
 def _len(eng, o):
+    if isinstance(o, SBytes) and any(isinstance(x, Native) and hasattr(x, "n") for x in o.items):
+        n = 0
+        for x in o.items:
+            n = eng.binop(ast.Add(), n, x.n if (isinstance(x, Native) and hasattr(x, "n")) else 1)
+        return n
     if isinstance(o, (SBytes, SStr, list, tuple, dict, str, set, bytes)):
         return len(o)
     if isinstance(o, Rope):
